@@ -48,6 +48,13 @@ def cache(ctx, quick):
                      " MaxOps = %d" % (4 if quick else 6), " MaxTicks = 3", " Never = 1000000", "INVARIANT NoFlags", "CHECK_DEADLOCK FALSE"]) + "\n"
     res = ctx.tlc("cache", "MC_IdCache", cfg, workers=core.NCPU, timeout=3000, heap="16g")
     ctx.log("id cache model: %d distinct states, no flag" % res.distinct)
+    # the same cache used by several goroutines at once (IdCacheConc.tla): every interleaving of the lookups' steps
+    procs, calls = ('{"p1", "p2"}', 4) if quick else ('{"p1", "p2", "p3"}', 5)
+    ccfg = "\n".join(["SPECIFICATION MCSpec", "CONSTANTS", " Procs = %s" % procs, ' Keys = {"7", "8"}', ' Values = {"alice"}',
+                      " MaxCalls = %d" % calls, ' Bug = "none"', "INVARIANTS NoFlags TypeOK MapUnderLock CachedIsStored NoOrphanLock",
+                      "PROPERTY Returns", "CHECK_DEADLOCK FALSE"]) + "\n"
+    res = ctx.tlc("cache", "MC_IdCacheConc", ccfg, workers=core.NCPU, timeout=3000, heap="16g")
+    ctx.log("id cache used concurrently, model: %d distinct states, no flag, every lookup returns" % res.distinct)
     tp = ctx.path("cache", "trace.ndjson")
     st = ctx.driver_json(["cache-run", "--out", tp, "--seed", ctx.seed, "--n", 200 if quick else 5000, "--len", 40 if quick else 80], timeout=3000)["stats"]
     flags, n = core.judge_traces(ctx, "cache", "CacheTrace", TRACE_CFG, tp)
